@@ -82,6 +82,9 @@ func (vc *VC) parseAssigns(cls []*Clause, env *Env) (regs []region, everything b
 				if err != nil || gt == nil {
 					specFail("assigns: %v", err)
 				}
+				if sl, ok := gt.Underlying().(*types.Slice); ok {
+					gt = sl.Elem() // heap[[]T]: the elements of slices of T
+				}
 				for _, lf := range vc.enc.Leaves(gt) {
 					regs = append(regs, region{heap: lf.heap, all: true})
 				}
